@@ -502,7 +502,9 @@ def transform(
                 "The `target data` input is not located on the cell bounds. This method will continue with linear interpolation with repeated boundary values. For most accurate results provide values on cell bounds.",
                 UserWarning,
             )
-            target_data = grid.interp(target_data, axis_name, boundary="extend")
+            target_data = grid.interp(
+                target_data, axis_name, to="outer", boundary="extend"
+            )
             # This seems to end up with chunks along the axis dimension.
             # Rechunk to keep xr.apply_func from complaining.
             # TODO: This should be made obsolete, when the internals are refactored using numba
